@@ -51,19 +51,37 @@ def _collect_pow(expr: Pow) -> tuple[Expr, Dimension]:
     raise ValueError(f"Dimension of '{expr.exp}' is {exp_dim}, but it should be dimensionless")
 
 
-@_elementwise_wrapper
-def _collect_add(factor: Expr, dim: Dimension, arg: Expr) -> tuple[Expr, Dimension]:
-    arg_factor, arg_dim = collect_quantity_factor_and_dimension(arg)
+def _collect_common_dimension(terms: list[tuple[Expr, Expr, Dimension]]) -> Dimension:
+    # Terms of any dimension (`0`, `±Inf`, `NaN`) are compatible with everything; all the other
+    # terms must have equivalent dimensions, no matter what the partial sums evaluate to.
+    dim = None
 
-    if is_any_dimension(factor):
-        dim = arg_dim
-    elif is_any_dimension(arg_factor):
-        arg_dim = dim
+    for arg, arg_factor, arg_dim in terms:
+        if is_any_dimension(arg_factor):
+            continue
 
-    if not dimsys_SI.equivalent_dims(dim, arg_dim):
-        raise ValueError(f"Dimension of '{arg}' is {arg_dim}, but it should be {dim}")
+        if dim is None:
+            dim = arg_dim
+            continue
 
-    return (factor + arg_factor, dim)
+        if not dimsys_SI.equivalent_dims(dim, arg_dim):
+            raise ValueError(f"Dimension of '{arg}' is {arg_dim}, but it should be {dim}")
+
+    if dim is None:
+        return terms[-1][2] if terms else dimensionless
+
+    return dim
+
+
+def _collect_add(expr: Add) -> tuple[Expr, Dimension]:
+    terms = [(arg, *collect_quantity_factor_and_dimension(arg)) for arg in expr.args]
+    dim = _collect_common_dimension(terms)
+
+    factor = terms[0][1]
+    for _, arg_factor, _ in terms[1:]:
+        factor += arg_factor
+
+    return (factor, dim)
 
 
 def _collect_abs(expr: Abs) -> tuple[Expr, Dimension]:
@@ -74,20 +92,14 @@ def _collect_abs(expr: Abs) -> tuple[Expr, Dimension]:
 def _collect_min_max(expr: MinMaxBase) -> tuple[Expr, Dimension]:
     cls = type(expr)
 
-    def collect(factor: Expr, dim: Dimension, arg: Expr) -> tuple[Expr, Dimension]:
-        arg_factor, arg_dim = collect_quantity_factor_and_dimension(arg)
+    terms = [(arg, *collect_quantity_factor_and_dimension(arg)) for arg in expr.args]
+    dim = _collect_common_dimension(terms)
 
-        if is_any_dimension(factor):
-            dim = arg_dim
-        elif is_any_dimension(arg_factor):
-            arg_dim = dim
+    factor = terms[0][1]
+    for _, arg_factor, _ in terms[1:]:
+        factor = cls(factor, arg_factor)
 
-        if not dimsys_SI.equivalent_dims(dim, arg_dim):
-            raise ValueError(f"Dimension of '{arg}' is {arg_dim}, but it should be {dim}")
-
-        return (cls(factor, arg_factor), dim)
-
-    return _elementwise_wrapper(collect)(expr)
+    return (factor, dim)
 
 
 def _collect_function(expr: SymFunction) -> tuple[Expr, Dimension]:
